@@ -465,8 +465,83 @@ def run_sync_root_around_loops(R: Recorder, case: dict[str, Any]) -> None:
                   detail=f"{name}: metrics(merge=view) = {got.get('merged')!r}, reference (own records, then nested scopes {[(c, p) for c, p in order if p == name]} depth first in creation order) {want_merged!r}", case=case)
 
 
+def run_records_from_worker_threads(R: Recorder, case: dict[str, Any]) -> None:
+    """synchronous code run through `asynchronous` (a worker thread with a copy of the caller's context) records into the caller's scope
+    while the loop thread waits for it on a threading.Event (a handshake: no race); right after, without going back to the event loop,
+    the loop thread records the same metric type itself / leaves the synchronous scope the worker inherited. Real loop, real thread."""
+    import threading
+
+    from haiway import asynchronous, ctx
+
+    Mx = metricsfam.Mx
+    concat = metricsfam.merge_fn("concat")
+    seen: dict[str, Any] = {}
+    errors: list[str] = []
+
+    def done(name: str) -> Any:
+        def cb(metrics: Any) -> None:
+            try:
+                seen[name] = metricsfam.plain(metrics.read(Mx))
+            except BaseException as exc:  # noqa: BLE001
+                seen[name] = ("error", repr(exc))
+        return cb
+
+    def rec(uid: int) -> None:
+        try:
+            ctx.record(Mx(ids=(uid,)), merge=concat)
+        except BaseException as exc:  # noqa: BLE001
+            errors.append(f"record {uid} raised {exc!r}")
+
+    recorded, go_on = threading.Event(), threading.Event()
+
+    @asynchronous
+    def work() -> None:
+        rec(2)
+        recorded.set()
+        go_on.wait(10)
+
+    async def main() -> None:
+        async with ctx.scope("outer", completion=done("outer")):
+            if case["variant"] == "order":
+                rec(1)
+                pending = asyncio.ensure_future(work())
+                await asyncio.sleep(0)  # the call hands the function to its worker thread (first step of its task) - and not one await more
+                if not recorded.wait(10):  # the loop thread itself waits (synchronously) until the worker has recorded
+                    errors.append("worker never recorded")
+                rec(3)  # the worker's record is in; this one is recorded after it
+                go_on.set()
+                await pending
+            else:
+                with ctx.scope("inner", completion=done("inner")):
+                    rec(1)
+                    pending = asyncio.ensure_future(work())
+                    await asyncio.sleep(0)
+                    if not recorded.wait(10):
+                        errors.append("worker never recorded")
+                    # the synchronous scope the worker inherited is left right now, without going back to the event loop first
+                go_on.set()
+                await pending
+        for _ in range(5):
+            await asyncio.sleep(0.001)
+
+    try:
+        asyncio.run(asyncio.wait_for(main(), 30))
+    except BaseException as exc:  # noqa: BLE001
+        errors.append(f"program raised {exc!r}")
+    R.case(case, nontrivial=True)
+    R.count("records_from_worker_threads_with_the_loop_thread_waiting")
+    w = {"kind": "worker-thread-record", "variant": case["variant"]}
+    R.monitor("never-raises", not errors, where={**w, "kind": "record-raised"}, detail=f"{errors}", case=case)
+    scope = "outer" if case["variant"] == "order" else "inner"
+    want = ("Mx", (1, 2, 3)) if case["variant"] == "order" else ("Mx", (1, 2))
+    R.monitor("fold", seen.get(scope) == want, where={**w, "kind": "fold-differs", "scope": scope},
+              detail=f"records made in order 1 (loop thread), 2 (worker thread, loop thread waiting for it){', 3 (loop thread)' if case['variant'] == 'order' else ' - then the scope was left'}: read(Mx) of {scope} = {seen.get(scope)!r}, reference {want!r}", case=case)
+
+
 def run(R: Recorder, tier: str, seed: int, shard: int, nshards: int) -> None:
     if shard == 0:
+        for variant in ("order", "left-right-after"):
+            run_records_from_worker_threads(R, {"worker_thread": True, "variant": variant})
         for runs in (["asyncio.run"], ["new-loop"], ["asyncio.run", "asyncio.run"], ["new-loop", "asyncio.run"]):
             for prepared in (False, True):
                 for restore in (False, True):
@@ -493,6 +568,9 @@ def run(R: Recorder, tier: str, seed: int, shard: int, nshards: int) -> None:
 
 
 def replay(R: Recorder, rec: dict[str, Any]) -> None:
+    if rec.get("worker_thread"):
+        run_records_from_worker_threads(R, rec)
+        return
     if rec.get("sync_root"):
         run_sync_root_around_loops(R, rec)
         return
